@@ -10,11 +10,18 @@ Open Scope Z_scope.
 Open Scope string_scope.
 
 (** the six types and their documented ranges *)
+Definition triple_eqb (a b : string * string * N) : bool :=
+  String.eqb (fst (fst a)) (fst (fst b)) && String.eqb (snd (fst a)) (snd (fst b)) && N.eqb (snd a) (snd b).
+Definition documented_types : list (string * string * N) :=
+  [("Channel", "u8", 15%N); ("ControllerNumber", "u8", 127%N); ("KeyNumber", "u8", 127%N);
+   ("U14", "u16", 16383%N); ("U4", "u8", 15%N); ("U7", "u8", 127%N)].
+
+(** as a set: the order of the declarations in the source is not observable *)
 Theorem C04_types_as_documented :
-  newtype_defs = [("Channel", "u8", 15%N); ("ControllerNumber", "u8", 127%N);
-                  ("KeyNumber", "u8", 127%N); ("U14", "u16", 16383%N); ("U4", "u8", 15%N);
-                  ("U7", "u8", 127%N)].
-Proof. reflexivity. Qed.
+  length newtype_defs = 6%nat /\
+  forallb (fun d => existsb (triple_eqb d) newtype_defs) documented_types = true /\
+  forallb (fun d => existsb (triple_eqb d) documented_types) newtype_defs = true.
+Proof. repeat split; vm_compute; reflexivity. Qed.
 
 (** every conversion implemented by the crate is sound: complete evaluation of the side
     condition over the regenerated table ... *)
